@@ -12,13 +12,18 @@ import (
 	"encoding/hex"
 	"fmt"
 	"io"
+	"io/fs"
+	"net/url"
 	"sort"
 	"strings"
 	"sync"
+	"sync/atomic"
+	"time"
 
 	"github.com/gotd/td/internal/verif/kit"
 	"github.com/gotd/td/internal/verif/lib/reffiles"
 	"github.com/gotd/td/telegram/uploader"
+	"github.com/gotd/td/telegram/uploader/source"
 	"github.com/gotd/td/tg"
 	"github.com/gotd/td/tgerr"
 )
@@ -47,6 +52,12 @@ type wUp struct {
 	Threads  int     `json:"threads"`
 	Chunking string  `json:"chunking"`
 	Faults   []fault `json:"faults,omitempty"`
+	// Entry selects the exported entry point: "" = Upload(NewUpload(...)); bytes | file | fs (size known from Stat/len),
+	// reader (FromReader: unknown size), source (FromSource: RemoteFile.Size() = size or -1 by Known).
+	Entry string `json:"entry,omitempty"`
+	// Prev: uploads run one after the other on the SAME Uploader before this one (their PartSize/Threads are ignored:
+	// the Uploader's configuration is that of the judged upload). Every one of them is judged by the same oracle.
+	Prev []wUp `json:"previous_uploads_on_same_uploader,omitempty"`
 }
 
 type stored struct {
@@ -65,10 +76,94 @@ type mock struct {
 	dup      []int
 	calls    int
 	injected int
+	fileIDs  map[int64]int // FileID -> number of requests that carried it
 }
 
-func (m *mock) handle(part int, data []byte, total int, big bool) (bool, error) {
+// router is the Client given to the Uploader; it forwards to the mock of the upload that is running, so that one
+// Uploader can be used for several uploads.
+type router struct {
+	mu  sync.Mutex
+	cur *mock
+}
+
+func (r *router) get() *mock {
+	r.mu.Lock()
+	defer r.mu.Unlock()
+	return r.cur
+}
+
+func (r *router) set(m *mock) {
+	r.mu.Lock()
+	r.cur = m
+	r.mu.Unlock()
+}
+
+func (r *router) UploadSaveFilePart(ctx context.Context, q *tg.UploadSaveFilePartRequest) (bool, error) {
+	return r.get().UploadSaveFilePart(ctx, q)
+}
+
+func (r *router) UploadSaveBigFilePart(ctx context.Context, q *tg.UploadSaveBigFilePartRequest) (bool, error) {
+	return r.get().UploadSaveBigFilePart(ctx, q)
+}
+
+// refFile is an uploader.File and an fs.File over the synthetic source.
+type refFile struct {
+	*reffiles.Reader
+	size int64
+}
+
+type refInfo struct{ size int64 }
+
+func (i refInfo) Name() string       { return "c32.bin" }
+func (i refInfo) Size() int64        { return i.size }
+func (i refInfo) Mode() fs.FileMode  { return 0o644 }
+func (i refInfo) ModTime() time.Time { return time.Unix(1700000000, 0) }
+func (i refInfo) IsDir() bool        { return false }
+func (i refInfo) Sys() any           { return nil }
+
+func (f *refFile) Stat() (fs.FileInfo, error) { return refInfo{f.size}, nil }
+func (f *refFile) Close() error               { return nil }
+
+type refFS struct{ mk func() *refFile }
+
+func (f refFS) Open(name string) (fs.File, error) {
+	if name != "c32.bin" {
+		return nil, &fs.PathError{Op: "open", Path: name, Err: fs.ErrNotExist}
+	}
+	return f.mk(), nil
+}
+
+// refRemote is a source.RemoteFile; size < 0 = unknown.
+type refRemote struct {
+	*reffiles.Reader
+	size int64
+}
+
+func (r refRemote) Close() error { return nil }
+func (r refRemote) Name() string { return "c32.bin" }
+func (r refRemote) Size() int64  { return r.size }
+
+type refSource struct{ mk func() refRemote }
+
+func (s refSource) Open(context.Context, *url.URL) (source.RemoteFile, error) { return s.mk(), nil }
+
+// entryKnown: does the entry point learn the total size? ok=false: the witness combines an entry point with a
+// Known flag it cannot have.
+func entryKnown(w wUp) (known, ok bool) {
+	switch w.Entry {
+	case "", "source":
+		return w.Known, true
+	case "bytes", "file", "fs":
+		return true, w.Known
+	case "reader":
+		return false, !w.Known
+	}
+	return false, false
+}
+
+func (m *mock) handle(id int64, part int, data []byte, total int, big bool) (bool, error) {
 	m.mu.Lock()
+	m.fileIDs[id]++
 	a := m.attempts[part]
 	m.attempts[part] = a + 1
 	m.calls++
@@ -102,11 +197,11 @@ func (m *mock) handle(part int, data []byte, total int, big bool) (bool, error) 
 }
 
 func (m *mock) UploadSaveFilePart(_ context.Context, r *tg.UploadSaveFilePartRequest) (bool, error) {
-	return m.handle(r.FilePart, r.Bytes, 0, false)
+	return m.handle(r.FileID, r.FilePart, r.Bytes, 0, false)
 }
 
 func (m *mock) UploadSaveBigFilePart(_ context.Context, r *tg.UploadSaveBigFilePartRequest) (bool, error) {
-	return m.handle(r.FilePart, r.Bytes, r.FileTotalParts, true)
+	return m.handle(r.FileID, r.FilePart, r.Bytes, r.FileTotalParts, true)
 }
 
 func ceilDiv(a int64, b int64) int64 { return (a + b - 1) / b }
@@ -121,22 +216,70 @@ func psIndex(ps int) int {
 }
 
 func evalUpload(w wUp) kit.Result {
-	const seed = 32
-	m := &mock{seed: seed, faults: map[[2]int]string{}, attempts: map[int]int{}, parts: map[int]stored{}}
-	for _, f := range w.Faults {
-		m.faults[[2]int{f.Part, f.Attempt}] = f.Kind
-	}
-	u := uploader.NewUploader(m).WithThreads(w.Threads).WithIDGenerator(func() (int64, error) { return 0x5eed0032, nil })
+	rt := &router{}
+	var idSeq int64
+	u := uploader.NewUploader(rt).WithThreads(w.Threads).WithIDGenerator(func() (int64, error) {
+		return 0x5eed0032 + atomic.AddInt64(&idSeq, 1)<<8, nil
+	})
 	if w.PartSize != 0 {
 		u = u.WithPartSize(w.PartSize)
 	}
+	all := append(append([]wUp(nil), w.Prev...), w)
+	for i, one := range all {
+		one.PartSize, one.Threads, one.Prev = w.PartSize, w.Threads, nil
+		r := runOne(u, rt, one)
+		if len(all) > 1 && r.Class != "" {
+			// a failure that needs the history of the Uploader gets its own class
+			r.Class = "reuse:" + r.Class
+			r.Msg = fmt.Sprintf("upload %d of %d run one after the other on one Uploader (%+v): %s", i+1, len(all), one, r.Msg)
+		}
+		if r.Class != "" || i == len(all)-1 {
+			if len(all) > 1 && r.Class == "" && !r.Trivial {
+				r.Outcome = fmt.Sprintf("reuse-%d/", len(all)) + r.Outcome
+			}
+			return r
+		}
+	}
+	panic("unreachable")
+}
+
+// runOne runs one upload on u and judges it.
+func runOne(u *uploader.Uploader, rt *router, w wUp) kit.Result {
+	const seed = 32
+	known, ok := entryKnown(w)
+	if !ok {
+		return kit.Result{Trivial: true, Outcome: "malformed-witness:entry/known"}
+	}
+	w.Known = known
+	m := &mock{seed: seed, faults: map[[2]int]string{}, attempts: map[int]int{}, parts: map[int]stored{}, fileIDs: map[int64]int{}}
+	for _, f := range w.Faults {
+		m.faults[[2]int{f.Part, f.Attempt}] = f.Kind
+	}
+	rt.set(m)
 	total := int64(-1)
 	if w.Known {
 		total = w.Size
 	}
 	src := &reffiles.Reader{Seed: seed, Size: w.Size, Chunking: w.Chunking}
-	res, err := u.Upload(context.Background(), uploader.NewUpload("c32.bin", src, total))
-
+	ctx := context.Background()
+	var (
+		res tg.InputFileClass
+		err error
+	)
+	switch w.Entry {
+	case "":
+		res, err = u.Upload(ctx, uploader.NewUpload("c32.bin", src, total))
+	case "bytes":
+		res, err = u.FromBytes(ctx, "c32.bin", reffiles.Bytes(seed, 0, int(w.Size)))
+	case "reader":
+		res, err = u.FromReader(ctx, "c32.bin", src)
+	case "file":
+		res, err = u.FromFile(ctx, &refFile{src, w.Size})
+	case "fs":
+		res, err = u.FromFS(ctx, refFS{func() *refFile { return &refFile{src, w.Size} }}, "c32.bin")
+	case "source":
+		res, err = u.FromSource(ctx, refSource{func() refRemote { return refRemote{src, total} }}, "https://verif.invalid/dir/c32.bin")
+	}
 	explicitValid := w.PartSize == 0 || psIndex(w.PartSize) >= 0
 	if err != nil {
 		switch {
@@ -225,17 +368,21 @@ func evalUpload(w wUp) kit.Result {
 	}
 	// descriptor
 	var (
-		big   bool
-		parts int
-		sum5  string
+		big    bool
+		parts  int
+		sum5   string
+		descID int64
 	)
 	switch f := res.(type) {
 	case *tg.InputFile:
-		parts, sum5 = f.Parts, f.MD5Checksum
+		parts, sum5, descID = f.Parts, f.MD5Checksum, f.ID
 	case *tg.InputFileBig:
-		big, parts = true, f.Parts
+		big, parts, descID = true, f.Parts, f.ID
 	default:
 		return kit.Bad("descriptor-type", "unexpected descriptor %T", res)
+	}
+	if n > 0 && (len(m.fileIDs) != 1 || m.fileIDs[descID] == 0) {
+		return kit.Bad("file-id", "the descriptor names file id %#x, the part requests carried file ids %v (id -> requests)", descID, m.fileIDs)
 	}
 	if parts != n {
 		return kit.Bad("descriptor-parts", "descriptor states %d parts, %d were uploaded", parts, n)
@@ -287,6 +434,9 @@ func evalUpload(w wUp) kit.Result {
 	} else if big && !carriesN {
 		// stream whose length is a multiple of the part size: the end is discovered after the last part was sent
 		out += "/count-never-sent"
+	}
+	if w.Entry != "" {
+		out = "entry-" + w.Entry + "/" + out
 	}
 	return kit.OKo(out)
 }
@@ -341,7 +491,13 @@ func main() {
 			"recorded as trivial. distinct = distinct witnesses. Oracle on the mock's store and the descriptor: part numbers 0..n-1 each " +
 			"answered true once, all but the last part have the (chosen, or valid automatic) part size, content of part i = source bytes at i*P, " +
 			"total length, n <= 3999 with automatic size whenever 512 KiB parts allow it (known totals), descriptor parts = n, kind by 10 MiB " +
-			"(known totals; exactly 10 MiB accepts both), MD5 for small, big parts carry n (known totals) or -1/n with n on the short last part (streams).")
+			"(known totals; exactly 10 MiB accepts both), MD5 for small, big parts carry n (known totals) or -1/n with n on the short last part (streams); " +
+			"all part requests carry the file id the descriptor names (class file-id).")
+		c.Rule("(4) entry points: FromBytes, FromFile, FromFS (size from len/Stat), FromReader (unknown size), FromSource (RemoteFile.Size() = size and -1) x part size {4 KiB, auto} x " +
+			"size {0,1,ps-1,ps,ps+1,2ps+1; auto also 10 MiB-1, 10 MiB, 10 MiB+1} x threads {1,3} x {no fault, false on part 0, FLOOD_WAIT on the last part} x reader chunking {full, odd}: " +
+			"same oracle, 'known total' = what the entry point is told by len/Stat/Size. (5) Uploader history: every ordered pair of 8 upload kinds (small 1 part, small 3 parts, stream with " +
+			"short last part, small with a re-sent part, empty, stream of exactly 2 parts, FromBytes, big with known total) and every ordered triple of the first 4, run one after the other on ONE " +
+			"Uploader (part size {4 KiB, auto} x threads {1,3}; a fresh id per upload): every upload of the sequence is judged by the same oracle; a failure gets class reuse:<class>.")
 		c.Assume("default goroutine schedule only (results are schedule-independent by construction of the mock); the <=2-preemption interleaving " +
 			"part of the plan needs the controlled scheduler and is not covered here; clock.System is replaced by an instant clock so FLOOD_WAIT does not sleep")
 
@@ -420,6 +576,78 @@ func main() {
 		if c.Thorough() {
 			ws = append(ws, wUp{Size: 2048*mib + mib, PartSize: 0, Known: true, Threads: 8, Chunking: "full"})
 			ws = append(ws, wUp{Size: 2048*mib + mib, PartSize: 512 * kib, Known: false, Threads: 8, Chunking: "odd"})
+		}
+		// (4) secondary entry points: every exported way to start an upload shares Upload() but derives name/size itself
+		type ent struct {
+			name  string
+			known bool
+		}
+		for _, e := range []ent{{"bytes", true}, {"file", true}, {"fs", true}, {"reader", false}, {"source", true}, {"source", false}} {
+			for _, ps := range []int{4 * kib, 0} {
+				eff := int64(ps)
+				if ps == 0 {
+					eff = 128 * kib
+				}
+				sizes := []int64{0, 1, eff - 1, eff, eff + 1, 2*eff + 1}
+				if ps == 0 {
+					sizes = append(sizes, smallLimit-1, smallLimit, smallLimit+1)
+				}
+				for _, size := range sizes {
+					last := int(ceilDiv(size, eff)) - 1
+					fps := [][]fault{nil}
+					if last >= 0 {
+						fps = append(fps, []fault{{0, 0, "false"}}, []fault{{last, 0, "flood"}})
+					}
+					for _, th := range []int{1, 3} {
+						for _, fp := range fps {
+							for _, ch := range []string{"full", "odd"} {
+								if e.name == "bytes" && ch != "full" {
+									continue
+								}
+								ws = append(ws, wUp{Size: size, PartSize: ps, Known: e.known, Threads: th, Chunking: ch, Faults: fp, Entry: e.name})
+							}
+						}
+					}
+				}
+			}
+		}
+		// (5) history of the Uploader: 2 and 3 uploads one after the other on one Uploader
+		for _, ps := range []int{4 * kib, 0} {
+			eff := int64(ps)
+			if ps == 0 {
+				eff = 128 * kib
+			}
+			specs := []wUp{
+				{Size: 100, Known: true},       // small, one part
+				{Size: 2*eff + 1, Known: true}, // small, several parts
+				{Size: eff + 1, Known: false},  // stream, short last part
+				{Size: 2*eff + 1, Known: true, Faults: []fault{{1, 0, "false"}}}, // small with a re-sent part
+				{Size: 0, Known: true},       // empty
+				{Size: 2 * eff, Known: false}, // stream, exact multiple
+				{Size: eff + 5, Known: true, Entry: "bytes"},
+				{Size: smallLimit + 1, Known: true}, // big, known total (automatic size: other part size than before)
+			}
+			for i := range specs {
+				specs[i].Chunking = "full"
+			}
+			for _, th := range []int{1, 3} {
+				for _, a := range specs {
+					for _, b := range specs {
+						w := b
+						w.PartSize, w.Threads, w.Prev = ps, th, []wUp{a}
+						ws = append(ws, w)
+					}
+				}
+				for _, a := range specs[:4] {
+					for _, b := range specs[:4] {
+						for _, d := range specs[:4] {
+							w := d
+							w.PartSize, w.Threads, w.Prev = ps, th, []wUp{a, b}
+							ws = append(ws, w)
+						}
+					}
+				}
+			}
 		}
 		// invalid explicit part sizes (trivial: outside the statement)
 		for _, ps := range []int{1000, 3 * kib, 1024 * kib} {
